@@ -519,8 +519,10 @@ def fr7(ctx):
         for (te, fe) in tedges:
             late = [e for e in ok_exits if e['point'] in b.reach([te[1]])]
             # every path from the `next_block() == true` edge to a successful return passes both resets
-            c_ok = bool(late) and bool(resets_c) and bool(resets_b) and \
-                not any(e['point'] in b.reach([te[1]], avoid=resets_c) for e in late) and not any(e['point'] in b.reach([te[1]], avoid=resets_b) for e in late)
+            def passes(resets):
+                # the edge may land on the reset itself (reach() keeps its sources even when they are in `avoid`)
+                return te[1] in resets or not any(e['point'] in b.reach([te[1]], avoid=resets) for e in late)
+            c_ok = bool(late) and bool(resets_c) and bool(resets_b) and passes(resets_c) and passes(resets_b)
             f_exits = [e for e in b.exits() if e['point'] in b.reach([fe[1]])]
             f_ok = bool(f_exits) and all(e['kind'] == 'err' and e.get('variant') == 'NotAvailable' for e in f_exits)
             if c_ok and f_ok:
@@ -567,6 +569,15 @@ def fr5b(ctx):
             if rv['k'] != 'use' or rv['op']['k'] not in ('copy', 'move'):
                 continue
             ol = rv['op']['place']['l']
+            # through named locals: `let end = cursor + len; ..; cursor = end`
+            hops = 0
+            while hops < 6:
+                d1 = b.single_def(ol)
+                if d1 and d1[1] == 'assign' and not d1[2]['place']['p'] and d1[2]['rv']['k'] == 'use' and d1[2]['rv']['op']['k'] in ('copy', 'move'):
+                    ol = d1[2]['rv']['op']['place']['l']
+                    hops += 1
+                else:
+                    break
             for (dp, kind, data) in b.defs.get(ol, []):
                 if kind == 'assign' and data['rv']['k'] == 'binop' and data['rv']['op'].startswith('Add'):
                     a, bb = data['rv']['a'], data['rv']['b']
@@ -613,11 +624,12 @@ def rec6(ctx):
         ctx.missing('frame-result', 'no switch on the frame reader result in the record reader')
 
 
-@rule('FR8b', ['C08', 'C02', 'C12', 'C18'], floor=3, template='error-not-dropped')
+@rule('FR8b', ['C08', 'C02', 'C12', 'C18'], floor=2, template='error-not-dropped')
 def fr8b(ctx):
     """Inside the reader stack a Corruption reported by a lower layer is never swallowed: it is propagated
     (only the replay loop, which knows nothing is being assembled across it, may skip it)."""
     n = 0
+    seen_rr = False
     for b in ctx.f.bodies.values():
         if b.generic_dup() or not (b.path.startswith(FRD) or b.path.startswith(RR)):
             continue
@@ -626,6 +638,8 @@ def fr8b(ctx):
             if cs.node is None or dl is None or not b.local_ty(dl).endswith('frame::reader::ReadFrameError>'):
                 continue
             n += 1
+            if b.path.startswith(RR):
+                seen_rr = True
             key = '%s:%s' % (b.path, cs.path.split('::')[-1])
             known = alias_paths(b, dl)
             starts = []
@@ -656,5 +670,7 @@ def fr8b(ctx):
                         bad = 'is converted into %s' % e.get('variant')
             ctx.check(bool(starts) and bad is None, key, where(b, cs.point), 'the Corruption arm only leads to Err(Corruption)',
                       'a Corruption reported by the lower reader layer is swallowed here: the arm %s, so the record reader is never told that frames were skipped and splices the open entry with unrelated frames' % (bad or 'is missing'))
-    if n < 3:
-        ctx.missing('sites', 'expected >= 3 calls returning Result<_, ReadFrameError> in the reader stack, found %d' % n)
+    # the two roles that must exist whatever the factoring: the record reader consumes the frame reader's result,
+    # the frame reader consumes the block-advance result (helpers in between may come and go)
+    if n < 2 or not seen_rr:
+        ctx.missing('sites', 'expected the record reader -> frame reader and frame reader -> block advance error hand-overs, found %d site(s)' % n)
